@@ -300,6 +300,12 @@ MultiAssignProg(p, q, first) ==
                (IF first THEN <<>> ELSE <<PV(5, Id(third))>>) \o <<Ret(ListE(<<Id("a"), Id("b"), Id("c")>>))>>
   IN <<VarS("mk", FuncE("", <<>>, <<VarS("a", I(1)), VarS("b", I(2)), VarS("c", I(3)), Ret(FuncE("", <<>>, inner))>>)),
        VarS("g", CallE(Id("mk"), <<>>)), PV(1, CallE(Id("g"), <<>>)), PV(2, CallE(Id("g"), <<>>)), ES(CallE(Id("g"), <<>>))>>
+\* "var a, b = [..]" DECLARES its names (like "a, b := [..]"): inside a function it shadows, it never assigns outer ones
+VarMultiProg(walrus) ==
+  LET d == [k |-> "multivar", ns |-> <<"a", "b">>, decl |-> TRUE, var |-> ~walrus, e |-> ListE(<<I(10), I(20)>>)]
+      top == [k |-> "multivar", ns |-> <<"c", "d">>, decl |-> TRUE, var |-> ~walrus, e |-> ListE(<<I(3), I(4)>>)]
+  IN <<VarS("a", I(1)), VarS("b", I(2)), VarS("f", FuncE("", <<>>, <<d, Ret(ListE(<<Id("a"), Id("b")>>))>>)),
+       PV(1, CallE(Id("f"), <<>>)), PV(2, ListE(<<Id("a"), Id("b")>>)), top, PV(3, ListE(<<Id("c"), Id("d")>>)), ES(I(0))>>
 \* a closure made inside a CALLBACK that a builtin invokes once per item (list.map / filter / each) captures the
 \* callback's parameter of THAT invocation: every closure keeps its own binding, also when it assigns to it
 MethCps(n) == CASE n = "map" -> <<109, 97, 112>> [] n = "filter" -> <<102, 105, 108, 116, 101, 114>> [] n = "each" -> <<101, 97, 99, 104>>
@@ -313,7 +319,8 @@ CbClosureProg(meth, mutate, two) ==
        PV(1, ListE(<<at(0), at(1), at(2), at(0)>>)), ES(I(0))>>
 CallbackClosures(u) == {CbClosureProg(m, mu, FALSE) : m \in {"map", "filter", "each"}, mu \in BOOLEAN}
                        \cup {CbClosureProg("map", mu, TRUE) : mu \in BOOLEAN}
-MultiAssigns(u) == {MultiAssignProg(p, q, first) : p \in 1..3, q \in 1..3, first \in BOOLEAN} \ {MultiAssignProg(p, p, f) : p \in 1..3, f \in BOOLEAN}
+MultiAssigns(u) == ({MultiAssignProg(p, q, first) : p \in 1..3, q \in 1..3, first \in BOOLEAN} \ {MultiAssignProg(p, p, f) : p \in 1..3, f \in BOOLEAN})
+                   \cup {VarMultiProg(w) : w \in BOOLEAN}
 
 \* read-modify-write statements whose right-hand side CHANGES the target while it is evaluated: x op= E reads x
 \* before E runs, x = x op E and x = E op x read x when the operand is reached (left to right), a[0] op= E reads
